@@ -1,6 +1,461 @@
 package c16
 
-import "verif/harness/vh"
+// Structural correspondence: for every AST node type found in parsed snippets,
+// what the real Generator emits for one instance (struct literal of which
+// fields / constructor call / error / panic) against what Model.Emit (driver
+// vm_c16, instantiated with the regenerated tables) says for a value of the
+// same shape; and, for hand-written handlers, whether the emitted text really
+// depends on exactly the scalar fields the translator says the handler reads.
 
-func structStream(c *vh.Ctx, m *vh.Model)                  {}
-func structReplay(c *vh.Ctx, m *vh.Model, rc replayCase) {}
+import (
+	"fmt"
+	"go/ast"
+	goparser "go/parser"
+	"go/token"
+	"os"
+	"path/filepath"
+	"reflect"
+	"sort"
+	"strings"
+	"unsafe"
+
+	"github.com/php-any/origami/cmd/compile"
+	"github.com/php-any/origami/data"
+	"github.com/php-any/origami/node"
+	"github.com/php-any/origami/parser"
+	"github.com/php-any/origami/runtime"
+
+	"verif/harness/lexh"
+	"verif/harness/vh"
+)
+
+var getValueT = reflect.TypeOf((*data.GetValue)(nil)).Elem()
+
+func typeName(t reflect.Type) string {
+	e := t
+	if e.Kind() == reflect.Ptr {
+		e = e.Elem()
+	}
+	pkg := e.PkgPath()
+	pkg = pkg[strings.LastIndex(pkg, "/")+1:]
+	return pkg + "." + e.Name()
+}
+
+// collect walks an AST through exported fields and gathers one instance per node type.
+func collect(v reflect.Value, seen map[uintptr]bool, out map[string]data.GetValue, depth int) {
+	if depth > 60 || !v.IsValid() {
+		return
+	}
+	switch v.Kind() {
+	case reflect.Interface:
+		if !v.IsNil() {
+			collect(v.Elem(), seen, out, depth+1)
+		}
+	case reflect.Ptr:
+		if v.IsNil() {
+			return
+		}
+		if seen[v.Pointer()] {
+			return
+		}
+		seen[v.Pointer()] = true
+		if v.Elem().Kind() == reflect.Struct {
+			pk := v.Elem().Type().PkgPath()
+			if (strings.HasSuffix(pk, "/node") || strings.HasSuffix(pk, "/data")) && v.Type().Implements(getValueT) && v.CanInterface() {
+				name := typeName(v.Type())
+				if _, ok := out[name]; !ok {
+					out[name] = v.Interface().(data.GetValue)
+				}
+			}
+		}
+		collect(v.Elem(), seen, out, depth+1)
+	case reflect.Struct:
+		for i := 0; i < v.NumField(); i++ {
+			f := v.Type().Field(i)
+			if !f.IsExported() {
+				continue
+			}
+			if f.Anonymous && f.Name == "Node" {
+				continue
+			}
+			collect(v.Field(i), seen, out, depth+1)
+		}
+	case reflect.Slice:
+		for i := 0; i < v.Len(); i++ {
+			collect(v.Index(i), seen, out, depth+1)
+		}
+	case reflect.Map:
+		for _, k := range v.MapKeys() {
+			collect(v.MapIndex(k), seen, out, depth+1)
+		}
+	}
+}
+
+// parseSnippet parses one source the way cmd/compile/parse.go does.
+func parseSnippet(src, path string) (prog *node.Program, err string) {
+	defer func() {
+		if r := recover(); r != nil {
+			err = fmt.Sprint("parser panic: ", r)
+		}
+	}()
+	p := parser.NewParser()
+	vm := runtime.NewVM(p)
+	loadStd(vm)
+	data.CompileMode = true
+	defer func() { data.CompileMode = false }()
+	pr, acl := p.Clone().ParseString(src, path)
+	if acl != nil {
+		return nil, acl.AsString()
+	}
+	return pr, ""
+}
+
+type realEmit struct {
+	Kind   string // struct | ctor | error | panic
+	Type   string
+	Node   bool
+	Fields []string
+	Msg    string
+	Text   string
+}
+
+func (r realEmit) String() string {
+	switch r.Kind {
+	case "struct":
+		return fmt.Sprintf("struct %s node=%s fields=%s", r.Type, b01(r.Node), strings.Join(r.Fields, ","))
+	case "error":
+		return "error " + r.Msg
+	}
+	return r.Kind
+}
+
+func b01(b bool) string {
+	if b {
+		return "1"
+	}
+	return "0"
+}
+
+// emitReal runs the real Generator on a one-statement program.
+func emitReal(n data.GetValue) (res realEmit) {
+	defer func() {
+		if r := recover(); r != nil {
+			res = realEmit{Kind: "panic", Msg: fmt.Sprint(r)}
+		}
+	}()
+	g := compile.NewGenerator()
+	code, err := g.Generate(compile.ParsedFile{Path: "probe.php", Program: node.NewProgram(nil, []data.GetValue{n})})
+	if err != nil {
+		msg := err.Error()
+		return realEmit{Kind: "error", Msg: msg}
+	}
+	res.Text = code
+	fset := token.NewFileSet()
+	f, perr := goparser.ParseFile(fset, "probe.go", "package p\n"+code, 0)
+	if perr != nil {
+		return realEmit{Kind: "error", Msg: "generated text does not parse: " + perr.Error(), Text: code}
+	}
+	var first ast.Expr
+	ast.Inspect(f, func(nd ast.Node) bool {
+		as, ok := nd.(*ast.AssignStmt)
+		if !ok || first != nil || len(as.Lhs) != 1 {
+			return true
+		}
+		if id, ok := as.Lhs[0].(*ast.Ident); ok && id.Name == "stmts" {
+			if cl, ok := as.Rhs[0].(*ast.CompositeLit); ok && len(cl.Elts) == 1 {
+				first = cl.Elts[0]
+			}
+		}
+		return true
+	})
+	if first == nil {
+		return realEmit{Kind: "error", Msg: "no statement emitted", Text: code}
+	}
+	if ue, ok := first.(*ast.UnaryExpr); ok && ue.Op == token.AND {
+		if cl, ok := ue.X.(*ast.CompositeLit); ok {
+			if se, ok := cl.Type.(*ast.SelectorExpr); ok {
+				res.Kind = "struct"
+				res.Type = se.X.(*ast.Ident).Name + "." + se.Sel.Name
+				for _, el := range cl.Elts {
+					if kv, ok := el.(*ast.KeyValueExpr); ok {
+						k := kv.Key.(*ast.Ident).Name
+						if k == "Node" {
+							res.Node = true
+						} else {
+							res.Fields = append(res.Fields, k)
+						}
+					}
+				}
+				return res
+			}
+		}
+	}
+	res.Kind = "ctor"
+	return res
+}
+
+// shapeOf describes the instance for the model: field names (embedded Node apart) with a value class.
+func shapeOf(n data.GetValue, handled bool) (hasNode bool, fields []string) {
+	v := reflect.ValueOf(n).Elem()
+	t := v.Type()
+	for i := 0; i < t.NumField(); i++ {
+		f := t.Field(i)
+		fv := v.Field(i)
+		if f.Anonymous && f.Name == "Node" {
+			hasNode = !fv.IsNil()
+			continue
+		}
+		k := "s"
+		switch fv.Kind() {
+		case reflect.Interface, reflect.Ptr, reflect.Map, reflect.Slice, reflect.Func, reflect.Chan:
+			if fv.IsNil() {
+				k = "n"
+			}
+		}
+		if k != "n" && !handled {
+			x := fv
+			if x.Kind() == reflect.Interface {
+				x = x.Elem()
+			}
+			switch x.Kind() {
+			case reflect.Ptr:
+				if !x.Type().Implements(getValueT) {
+					k = "p"
+				} else if x.CanInterface() {
+					// a child node whose own emission fails stands for a value that cannot be written
+					if ch := emitReal(x.Interface().(data.GetValue)); ch.Kind == "error" {
+						k = "b"
+					}
+				}
+			case reflect.Slice:
+				for j := 0; j < x.Len() && x.CanInterface(); j++ {
+					el := x.Index(j)
+					if el.Kind() == reflect.Interface {
+						el = el.Elem()
+					}
+					if el.IsValid() && el.Kind() == reflect.Ptr && !el.IsNil() && el.Type().Implements(getValueT) && el.CanInterface() {
+						if ch := emitReal(el.Interface().(data.GetValue)); ch.Kind == "error" {
+							k = "b"
+						}
+					}
+				}
+			case reflect.Func, reflect.Chan:
+				k = "b"
+			case reflect.Map:
+				if x.Type().Key().Kind() != reflect.String {
+					k = "b"
+				}
+			}
+		}
+		fields = append(fields, f.Name+":"+k)
+	}
+	return
+}
+
+func sameSet(a, b []string) bool {
+	x := append([]string{}, a...)
+	y := append([]string{}, b...)
+	sort.Strings(x)
+	sort.Strings(y)
+	return strings.Join(x, ",") == strings.Join(y, ",")
+}
+
+// agree: does the model's answer describe what the real Generator did?
+func agree(model string, real realEmit, typ string) bool {
+	switch {
+	case strings.HasPrefix(model, "struct "):
+		return real.Kind == "struct" && model == real.String()
+	case strings.HasPrefix(model, "ctor "):
+		if real.Kind == "ctor" {
+			return true
+		}
+		if real.Kind == "struct" && real.Type == typ {
+			// a handler that writes the literal by hand: its keys are the fields it reads
+			f := strings.Fields(model)
+			want := strings.TrimPrefix(f[len(f)-1], "fields=")
+			var ws []string
+			if want != "" {
+				ws = strings.Split(want, ",")
+			}
+			return sameSet(ws, real.Fields)
+		}
+		return false
+	case strings.HasPrefix(model, "error unexported "):
+		// Emit replaces the struct-literal error by its generic EmitError for the node
+		return real.Kind == "error"
+	case strings.HasPrefix(model, "error "):
+		return real.Kind == "error"
+	case model == "crash":
+		return real.Kind == "panic"
+	}
+	return false
+}
+
+// mutate changes one scalar field in place and returns an undo function (nil when the field is not a plain scalar).
+func mutate(n data.GetValue, idx int) func() {
+	v := reflect.ValueOf(n).Elem()
+	f := v.Field(idx)
+	if !f.CanSet() {
+		if !f.CanAddr() {
+			return nil
+		}
+		f = reflect.NewAt(f.Type(), unsafe.Pointer(f.UnsafeAddr())).Elem()
+	}
+	switch f.Kind() {
+	case reflect.String:
+		old := f.String()
+		f.SetString(old + "_mut")
+		return func() { f.SetString(old) }
+	case reflect.Int, reflect.Int8, reflect.Int16, reflect.Int32, reflect.Int64:
+		old := f.Int()
+		f.SetInt(old + 1)
+		return func() { f.SetInt(old) }
+	case reflect.Uint, reflect.Uint8, reflect.Uint16, reflect.Uint32, reflect.Uint64:
+		old := f.Uint()
+		f.SetUint(old + 1)
+		return func() { f.SetUint(old) }
+	case reflect.Bool:
+		old := f.Bool()
+		f.SetBool(!old)
+		return func() { f.SetBool(old) }
+	}
+	return nil
+}
+
+func structSources(c *vh.Ctx) []string {
+	var srcs []string
+	r := vh.NewRand(c.Seed*7919 + 13)
+	for i := range features {
+		e, libs := features[i].Gen(r, fmt.Sprintf("st%d", i))
+		srcs = append(srcs, assemble([]string{e}))
+		for _, l := range libs {
+			srcs = append(srcs, l)
+		}
+	}
+	for i := 0; i < c.N(40, 400); i++ {
+		srcs = append(srcs, "<?php\n"+lexh.GenSafe(r))
+	}
+	srcs = append(srcs,
+		"<?php\n$r = 1..5;\n$o = new Foo { a: 1 };\n$a = $b instanceof Foo;\n$x = $y like Foo;\necho Foo::class, $o::class;\ninclude 'x.php';\nconst QQ = 1;\n[$p, $q] = [1, 2];\n$s = `ls`;\n$z = $a <=> $b; $w = $a !== $b;\nswitch ($a) { case 1: break; default: }\n$n = new class { public $v = 1; };\n",
+		"<?php\nnamespace Probe\\Ns;\nuse Other\\Thing;\nabstract class PA { abstract function m(); static function sm() { return static::$x; } }\ninterface PI { function q(); }\nfunction pf(int ...$xs): ?string { return null; }\n$v = PA::sm(); $w = PA::$x; $u = parent::foo(); $t = self::K;\n",
+	)
+	return srcs
+}
+
+func structStream(c *vh.Ctx, m *vh.Model) {
+	inst := map[string]data.GetValue{}
+	parsed, failed := 0, 0
+	pdir := filepath.Join(c.Scratch, "probe")
+	os.MkdirAll(pdir, 0o755)
+	for i, src := range structSources(c) {
+		prog, perr := parseSnippet(src, filepath.Join(pdir, fmt.Sprintf("s%d.php", i)))
+		if prog == nil {
+			failed++
+			_ = perr
+			continue
+		}
+		parsed++
+		collect(reflect.ValueOf(prog), map[uintptr]bool{}, inst, 0)
+	}
+	var names []string
+	for n := range inst {
+		names = append(names, n)
+	}
+	sort.Strings(names)
+	c.Note("structural: %d snippets parsed (%d refused by the parser), %d distinct AST node types", parsed, failed, len(names))
+	if m != nil {
+		if f, err := m.Ask("facts"); err == nil {
+			c.Note("model tables: %s", f)
+		}
+	}
+	for _, name := range names {
+		structCase(c, m, name, inst[name], "")
+	}
+}
+
+func structCase(c *vh.Ctx, m *vh.Model, name string, n data.GetValue, snippet string) {
+	cas := replayCase{Kind: "struct", Type: name, Snip: snippet}
+	real := emitReal(n)
+	c.Eval("struct:"+name, true)
+	c.Hit("emit:" + real.Kind)
+	if real.Kind == "panic" {
+		c.Violation("crash:emit:"+name, "Generator.Emit panics on a "+name+" instead of reporting a compile error: "+real.Msg, cas)
+	}
+	if m == nil {
+		return
+	}
+	pathAns, err := m.Ask("path " + name)
+	if err != nil {
+		return
+	}
+	handled := strings.HasPrefix(pathAns, "special ") || strings.HasPrefix(pathAns, "scalar ")
+	hasNode, fields := shapeOf(n, handled)
+	ans, err := m.Ask(fmt.Sprintf("emit %s %s %s", name, b01(hasNode), strings.Join(fields, ",")))
+	if err != nil {
+		return
+	}
+	c.Res.Traces++
+	if !agree(ans, real, name) {
+		c.Mismatch(cas, real.String()+" | "+firstLines(real.Msg, 2), ans, "Generator.Emit vs Model.Emit for "+name+" ("+pathAns+")")
+		return
+	}
+	// handlers: the emitted text depends on a scalar field iff the translator says the handler reads it
+	if !handled || real.Kind == "error" || real.Kind == "panic" {
+		return
+	}
+	reads := map[string]bool{}
+	for _, part := range strings.Fields(pathAns) {
+		if strings.HasPrefix(part, "reads=") {
+			for _, f := range strings.Split(strings.TrimPrefix(part, "reads="), ",") {
+				if f != "" {
+					reads[f] = true
+				}
+			}
+		}
+	}
+	t := reflect.TypeOf(n).Elem()
+	for i := 0; i < t.NumField(); i++ {
+		undo := mutate(n, i)
+		if undo == nil {
+			continue
+		}
+		after := emitReal(n)
+		undo()
+		changed := after.Text != real.Text || after.Kind != real.Kind
+		fname := t.Field(i).Name
+		c.Hit("sensitivity-checked")
+		if changed && !reads[fname] {
+			c.Mismatch(cas, "output depends on "+fname, pathAns, "the translator's read set of the handler misses a field the emitted text depends on")
+		}
+		if !changed && reads[fname] && !controlOnly[name+"."+fname] {
+			c.Mismatch(cas, "output does not depend on "+fname, pathAns, "the translator says the handler reads the field, the emitted text ignores it")
+		}
+	}
+}
+
+// fields a handler reads only to decide something that the mutation does not flip
+var controlOnly = map[string]bool{}
+
+func firstLines(s string, k int) string {
+	l := strings.Split(s, "\n")
+	if len(l) > k {
+		l = l[:k]
+	}
+	return strings.Join(l, " / ")
+}
+
+func structReplay(c *vh.Ctx, m *vh.Model, rc replayCase) {
+	inst := map[string]data.GetValue{}
+	pdir := filepath.Join(c.Scratch, "probe")
+	os.MkdirAll(pdir, 0o755)
+	for i, src := range structSources(c) {
+		if prog, _ := parseSnippet(src, filepath.Join(pdir, fmt.Sprintf("s%d.php", i))); prog != nil {
+			collect(reflect.ValueOf(prog), map[uintptr]bool{}, inst, 0)
+		}
+	}
+	if n, ok := inst[rc.Type]; ok {
+		structCase(c, m, rc.Type, n, "")
+	} else {
+		c.Note("replay: no instance of %s found", rc.Type)
+	}
+}
